@@ -39,6 +39,8 @@ SPEC = [
          params=[("fmin", "Q"), ("fmax", "Q")], ret="Q"),
     dict(group="05", name="obs_length", file="setigen/frame.py", cls="Frame", func="obs_length", what="return",
          params=[("tchans", "Z"), ("dt", "Q")], ret="Q"),
+    dict(group="05", name="ts_ext_last", file="setigen/frame.py", cls="Frame", func="ts_ext", what="call:np.append:1",      # the value appended to the frame's time axis
+         params=[("ts_last", "Q"), ("dt", "Q")], ret="Q", opaque={"self.ts[-1]": "ts_last"}),
     dict(group="05", name="t_stop", file="setigen/frame.py", cls="Frame", func="t_stop", what="return",
          params=[("t_start", "Q"), ("tchans", "Z"), ("dt", "Q")], ret="Q"),
     dict(group="11", name="get_intensity", file="setigen/frame.py", cls="Frame", func="get_intensity", what="return",
@@ -249,10 +251,14 @@ def pick(fn, what):
             raise Untranslatable("%d calls pass %s=" % (len(hits), target))
         return hits[0]
     if kind == "call":
+        # the (only) argument of the only call of <f>; "call:<f>:<k>" = its k-th positional argument
+        k = 0
+        if target.rsplit(":", 1)[-1].isdigit():
+            target, k = target.rsplit(":", 1)[0], int(target.rsplit(":", 1)[1])
         hits = [n for n in ast.walk(fn) if isinstance(n, ast.Call) and src(n.func) == target]
-        if len(hits) != 1 or len(hits[0].args) != 1:
+        if len(hits) != 1 or len(hits[0].args) <= k or (k == 0 and len(hits[0].args) != 1 and not target.endswith("append")):
             raise Untranslatable("%d calls of %s" % (len(hits), target))
-        return hits[0].args[0]
+        return hits[0].args[k]
     raise Untranslatable("unknown selector %s" % what)
 
 
